@@ -49,8 +49,8 @@ def stage(ev, vd, d, quick):
         for (i, t) in sorted(st.get('bad', []))[:3] if nbad < 6 else []:
             rec = recs[i - 1]
             nbad += 1
-            vd.violation({1: 'simplify:wrong-route', 2: 'simplify:checkpoint-cache-misindexed'}.get(t, 'simplify:checkpointsOnSegment-wrong'),
-                         'Polygon::simplify() on route %s with checkpoint cache %s returned route %s, cache %s%s' % (rec['ps'], rec['cps'], rec['qs'], rec['cq'], (', checkpointsOnSegment (segment, modifier, points): %s' % rec['cos']) if t == 3 else ''), rec)
+            vd.violation({1: 'simplify:wrong-route', 2: 'simplify:checkpoint-cache-misindexed', 4: 'checkpoint-cache:builder-disagrees-with-specification'}.get(t, 'simplify:checkpointsOnSegment-wrong'),
+                         'Polygon::simplify() on route %s with checkpoint cache %s returned route %s, cache %s%s' % (rec['ps'], rec['cps'], rec['qs'], rec['cq'], (', checkpointsOnSegment (segment, modifier, points): %s' % rec['cos']) if t == 3 else (', cache built by buildConnectorRouteCheckpointCache: %s' % rec['built']) if t == 4 else ''), rec)
     ev.cov['simplify_instances'] = len(insts)
     ev.cov['simplify_instances_with_merge_and_checkpoints'] = merged
     return len(insts)
